@@ -31,15 +31,18 @@ fn hint_ok(r: &J, missing: usize) -> bool {
         None => true,
     }
 }
-fn frame_ok(r: &J, frame: &J) -> bool {
+/// `frames`: the set of frames the buffer declares (one per occurrence of the storage-header pattern; a single one without resync)
+fn frame_ok(r: &J, frames: &J) -> bool {
     let v = r["v"].as_str().unwrap_or("");
     if !["msg", "filtered", "skipped", "invalid"].contains(&v) {
         return true;
     }
-    let end = frame["end"].as_i64().unwrap_or(-1);
     let consumed = r["consumed"].as_i64().unwrap_or(-2);
     let n = if v == "filtered" { r["n"].as_i64() } else if v == "msg" { r.get("n").and_then(|x| x.as_i64()).or(r["m"]["h"]["plen"].as_i64()) } else { None };
-    end > 0 && consumed == end && (n.is_none() || n == frame["n"].as_i64())
+    frames.as_array().map(|fs| fs.iter().any(|frame| {
+        let end = frame["end"].as_i64().unwrap_or(-1);
+        end > 0 && consumed == end && (n.is_none() || n == frame["n"].as_i64())
+    })).unwrap_or(false)
 }
 
 /// suite "slice"
